@@ -584,7 +584,7 @@ def conform_selftest(outs, runs, workdir):
         fs = [i for i, e in enumerate(ev) if e["k"] == "fs"]
         if len(fs) < 10:
             continue
-        i = fs[len(fs) // 2 + k]
+        i = fs[min(len(fs) - 1, len(fs) // 2 + k)]
         e = dict(ev[i])
         kind = k % 4
         if kind == 0:
